@@ -276,6 +276,15 @@ func (s *sim) settle(n *Node) *common.Failure {
 
 func (s *sim) judge(n *Node, r verifier.VerificationReport) *common.Failure {
 	s.reports++
+	n.Delivered++
+	var cm verifier.ErrChecksumMismatch
+	if errors.As(r.Err, &cm) {
+		if r.WrittenSum != 0 && r.WrittenSum != r.ExpectedSum {
+			n.MismatchWritten++
+		} else {
+			n.MismatchRead++
+		}
+	}
 	cpEntry, ok := n.Told.Get(r.Range.End)
 	if !ok {
 		return common.Failf("report-unknown-range", "node %d got a report for range %v whose checkpoint it does not hold", n.ID, r.Range)
